@@ -40,7 +40,7 @@ def _(c):
 
 # ---------------------------------------------------------------- get_app
 c = contract("server.Server.get_app", cls="Server", params={"app_id": "str"}, result="ref:AppNamespace",
-             modifies=["heap." + APPS, "alloc"] + APP_FIELDS, tags=["C02", "C06", "C11", "C17"])
+             modifies=["heap." + APPS, "alloc"] + APP_FIELDS, tags=["C02", "C06", "C11", "C16", "C17", "C18"])
 
 
 @c.requires
@@ -98,7 +98,7 @@ from .appnamespace import PRUNE_MOD, cardarr_axiom          # noqa: E402
 
 PAA_MOD = PRUNE_MOD + ["heap." + APPS, "alloc"] + APP_FIELDS
 c = contract("server.Server.prune_all_apps", cls="Server", params={"now": "real", "old": "real"},
-             modifies=PAA_MOD, tags=["C02", "C06", "C09", "C10", "C12", "C13", "C15", "C17"])
+             modifies=PAA_MOD, tags=["C02", "C06", "C09", "C10", "C12", "C13", "C15", "C16", "C17", "C18"])
 I.add_preserves(c)
 
 
@@ -194,7 +194,7 @@ def _(c):
     # ... and only what was protected remains: no new rows, and every survivor was active after `old` or subscribed
     yield "only_protected_remain", FA([INT], lambda r: Implies(mb1.live[r], And(
         mb0.live[r], Or(mb0.cols["updated"][r] > old, sub_row(S0, mb0, r)))), pats=lambda r: [mb1.live[r]]), ["C13"]
-    yield "committed", I.Clean(S1), ["C09"]
+    yield "committed", I.Clean(S1), ["C09", "C10", "C11", "C13"]
     yield "preserves.apps_wf", apps_wf(S1), ["C02", "C11"]
     yield "preserves.GH4", HI.GH4(S1), ["C02", "C12"]
     yield "preserves.GH5", HI.GH5(S1), ["C02", "C12"]
@@ -211,7 +211,7 @@ def _(c):
     yield "when", BoolVal(True)
 
 
-@c.loop(0, modifies=PAA_MOD, tags=["C12", "C13", "C10"])
+@c.loop(0, modifies=PAA_MOD, tags=["C12", "C13", "C10"], over="sorted(self.get_all_apps())")
 def _(c, L):
     E, S = L.entry, c.post
     old = c.a.t("old")
